@@ -272,6 +272,43 @@ def h_order(eng, molecule):
     eng.check(not diff, "charges-move-only-between-equivalent-atoms", note=f"{molecule} listed {order}: {diff[:3]}")
 
 
+def h_two_ligand_loads(eng):
+    """the same --ligand path used twice in one process with different MOL2 content (the file was rewritten): each
+    set-up works with the molecule in the file at that time (real main.setup_molecule on real temporary files)"""
+    import io as _io
+    import os
+    import shutil
+    import tempfile
+
+    from symx.run import REPO
+
+    from pdb2pqr import main, pdb
+
+    from . import fixtures
+
+    mols = ["ethanol", "acetate", "acetonitrile"]
+    first, second = mols[eng.choice("first_ligand", 3)], mols[eng.choice("second_ligand", 3)]
+    recs, _ = pdb.read_pdb(_io.StringIO("\n".join(fixtures.peptide_lines(["ALA", "GLY"])) + "\n"))
+    tmp = tempfile.mkdtemp(prefix="c16-")
+    got = []
+    try:
+        path = os.path.join(tmp, "ligand.mol2")
+        for m in (first, second):
+            shutil.copy(os.path.join(REPO, "tests", "data", f"{m}.mol2"), path)
+            _bm, _defn, lig = main.setup_molecule(list(recs), fixtures.definition(), path)
+            got.append(sorted((a.name, a.type) for a in lig.atoms.values()))
+    finally:
+        shutil.rmtree(tmp, ignore_errors=True)
+    from pdb2pqr.ligand.mol2 import Mol2Molecule
+
+    for tag, m, g in (("first", first, got[0]), ("second", second, got[1])):
+        ref = Mol2Molecule()
+        with open(os.path.join(REPO, "tests", "data", f"{m}.mol2")) as f:
+            ref.read(f)
+        want = sorted((a.name, a.type) for a in ref.atoms.values())
+        eng.check(g == want, f"{tag}-set-up-uses-the-file-as-it-is-now", note=f"{tag} set-up with the path holding {m}: ligand atoms {g[:4]}..., the file has {want[:4]}...")
+
+
 def h_ligand_records(eng):
     """every ligand HETATM record reaches the model: whatever alternate-location flag its records carry (a partially
     occupied ligand is often labelled B or C against solvent labelled A), whether two copies of the ligand are told
@@ -322,6 +359,11 @@ def obligations(tier):
     obs.append(Obligation("peoe-pair-cycles6-identity", h_peoe, dict(graph="pair", ncycles=6, order="identity"), group="peoe", time_cap=1500, max_paths=100000))
     for mol in ("adp", "acetate", "ethanol") if tier == "quick" else ("adp", "acetate", "ethanol", "acetonitrile", "acetylcholine", "fatty-acid", "glycerol", "pyrrole", "tetramethylammonium", "1HPX-ligand", "1QBS-ligand", "1US0-ligand", "crown-ether", "cyclohexane", "naphthalene", "anthracene"):
         obs.append(Obligation(f"order-{mol}", h_order, dict(molecule=mol), group="order", time_cap=1200))
+    obs.append(Obligation("two-ligand-loads-same-path", h_two_ligand_loads, {}, group="two-loads", time_cap=600))
+    # with --ffout every atom is looked up in the naming scheme under its OWN residue (C09's harness with a hetero group after the peptide)
+    from . import c09
+
+    obs.append(Obligation("name-scheme-with-hetero-group", c09.h_name_scheme, dict(seq=["ALA", "HIS", "GLY"]), group="name-scheme", time_cap=1200, max_paths=100000))
     obs.append(Obligation("ligand-records-altloc", h_ligand_records, {}, group="ligand-records", time_cap=600))
     obs.append(Obligation("radii-table", table_radii, {}, kind="table", group="radii"))
     for ff in (0, 1):
